@@ -351,9 +351,17 @@ func c15Priority(rep *vrep.Report) {
 		got := *(wd.([]interface{})[1].(*[]*item))
 		ids := map[int]int{}
 		for _, it := range got {
+			if it == nil {
+				return "nil", &vsync.Verdict{Sig: "C15/priority-hands-out-nothing", Desc: "NextAll handed a nil item to its callback (the queue was emptied by a concurrent Next between its size check and its pop)"}
+			}
 			ids[it.id]++
 		}
-		_ = pq.NextAll(func(n *item) error { ids[n.id]++; return nil })
+		_ = pq.NextAll(func(n *item) error {
+			if n != nil {
+				ids[n.id]++
+			}
+			return nil
+		})
 		o := fmt.Sprint(len(got))
 		for id := 1; id <= 3; id++ {
 			if ids[id] != 1 {
